@@ -140,7 +140,10 @@ func spec(dir string, entry []string, all bool, order []string) pipe.Spec {
 			continue
 		}
 		if g == "na" {
-			gens = append(gens, pipe.GenScript{Name: g, Default: pipe.Action{Render: "var NA_$T = 1\n"}})
+			// its last render into p's file panics half way (unbound template name) and is recovered by the
+			// generator: whatever was yielded before must stay in THIS file and reach no other one
+			gens = append(gens, pipe.GenScript{Name: g, Default: pipe.Action{Render: "var NA_$T = 1\n"},
+				ByType: map[string]pipe.Action{modPath + "/p.Z": {Render: "var NA_$T = 1\n", Recovered: "var Partial_$T_$G = 1\n"}}})
 			continue
 		}
 		gs := pipe.GenScript{Name: g, Stateful: true, QuietPkgs: []string{modPath + "/o"}, Default: pipe.Action{Render: "var V_$T_$G = \"$P\"\n", Imports: []string{"x.io/dep/$T", "y.io/other/dep"}}}
@@ -262,6 +265,20 @@ func checkCase(c *core.Ctx, cs Case) {
 				c.Fail("", cs, "%s is generated in this run but not when %s is processed alone", f, p)
 			}
 		}
+		// "a fresh import table and buffer per generator": the file of generator g is also the one that a
+		// run with g as the ONLY generator writes for this package
+		if len(cs.Gens) > 1 {
+			for _, g := range cs.Gens {
+				solo, ok := alone(c, p, []string{g})
+				if !ok {
+					return
+				}
+				f := p + "/zz_generated." + g + ".go"
+				if got[f] != solo[f] {
+					c.Fail("", cs, "%s differs from the run in which %s is the only generator (and %s the only package)\n--- only generator ---\n%s\n--- this run ---\n%s", f, g, p, solo[f], got[f])
+				}
+			}
+		}
 	}
 	// packages not in the run must have no generated files
 	for _, p := range pkgs {
@@ -338,7 +355,7 @@ func replay(c *core.Ctx, raw json.RawMessage) {
 func init() {
 	core.Register(&core.Prop{
 		ID: "C05", Level: "model_checking", Run: run, Replay: replay,
-		Rule:        "every non-empty ordered selection of entrypoints out of 5 packages (r imports p, s imports q and r; o sorts first and makes the scripted stateful generators record state without rendering anything) x All on/off x generator orders, each on a pristine copy of the module; generators: stateful scripted ones without New (g1, g2 with Defer), with a custom New (n1), registered with pre-allocated reference state and no New (p1), plus runtimedoc/deepcopy/defaulter; oracle: bytes of every <base>.<gen>.go of every processed package == bytes of the run selecting that package alone; non-trivial = more than one package processed; states = distinct (processed set, All)",
+		Rule:        "every non-empty ordered selection of entrypoints out of 5 packages (r imports p, s imports q and r; o sorts first and makes the scripted stateful generators record state without rendering anything) x All on/off x generator orders, each on a pristine copy of the module; generators: stateful scripted ones without New (g1, g2 with Defer), with a custom New (n1), registered with pre-allocated reference state and no New (p1), plus runtimedoc/deepcopy/defaulter; oracle: bytes of every <base>.<gen>.go of every processed package == bytes of the run selecting that package alone == bytes of the run selecting that package alone with that generator as the only one; non-trivial = more than one package processed; states = distinct (processed set, All)",
 		Assumptions: []string{"each run starts from the same pristine module tree (no outputs of earlier runs)"},
 	})
 }
